@@ -893,16 +893,20 @@ def replay(ctx, data):
         spec = inp["spec"]
         spec = dict(loader=dict(rules={int(k): v for k, v in spec["loader"]["rules"].items()}, default=spec["loader"]["default"]),
                     steps=[dict(flavour=s["flavour"], rules={int(k): v for k, v in s["rules"].items()}, default=s["default"]) for s in spec["steps"]],
-                    sleeps={int(k): v for k, v in spec["sleeps"].items()}, members=inp["members"], outcome={})
+                    sleeps={int(k): v for k, v in spec["sleeps"].items()}, members=inp["members"], outcome={}, fn_step=bool(spec.get("fn_step")))
+        cur = spec
+        if inp.get("spec2"):
+            s2 = inp["spec2"]
+            cur = dict(spec, loader=dict(rules={int(k): v for k, v in s2["loader"]["rules"].items()}, default=s2["loader"]["default"]),
+                       steps=[dict(flavour=x["flavour"], rules={int(k): v for k, v in x["rules"].items()}, default=x["default"]) for x in s2["steps"]])
         if inp.get("first"):
             first = run_apply(ctx, "replay", spec, inp["first"], inp["store"], False, inp["max_workers"])
-            res = run_apply(ctx, "replay", spec, inp["members"], inp["store"], inp["parallel"], inp["max_workers"], outdir=first["outdir"], mode="a",
+            res = run_apply(ctx, "replay", cur, inp["members"], inp["store"], inp["parallel"], inp["max_workers"], outdir=first["outdir"], mode="a",
                             par_kw=inp.get("par_kw"))
         else:
             res = run_apply(ctx, "replay", spec, inp["members"], inp["store"], inp["parallel"], inp["max_workers"], par_kw=inp.get("par_kw"))
-        inner = build_inner(spec, False)
         base = ctx.scratch / "c14_replay"
-        expected = {m: canon_value(inner(str(base / "in" / f"{_ident(m)}.txt"))) for m in inp["members"]}
+        expected = {m: canon_value(build_inner(cur, False)(str(base / "in" / f"{_ident(m)}.txt"))) for m in inp["members"]}
         out = new_outcome()
         ok = _compare_run(out, "spec", spec, inp["members"], res, expected, "replay", inp, "")
         for x in out["failures"]:
